@@ -15,27 +15,27 @@ P = {
 
  "C06": (True,
   "The version-selection routine the builder calls is evaluated on every registry over the version domain (each version absent/live/yanked x created_at none/before/at/after the cutoff), every requirement, every set of already-selected and cached versions and every date/exclusion configuration, and compared with a declarative four-tier reference; complete enumeration of that bounded domain. A further complete part enumerates version sets with pre-release and build-metadata versions of one release under every iteration order of the registry's version map: the selection must follow the reference and must not depend on the order.",
-  "Second part (deviation-bounded): real builds against a scripted registry - up to 3 requirements on one package resolved in visit order, lockfile-seeded selections, cutoff date / exclusions, prefer_cached_jsr_versions with cached manifest subsets, version tags, the cache-busting restart - compared per import with the function-level reference applied in visit order. Trusted: deno_semver's VersionReq::matches and Version ordering (used by both sides).",
+  "Second part (deviation-bounded): real builds against a scripted registry - up to 3 requirements on one package resolved in visit order, lockfile-seeded selections, cutoff date / exclusions, prefer_cached_jsr_versions with cached manifest subsets, version tags, a neighbour package with the same requirement text, stale cached registry metadata (restart from an empty graph; single-package refresh on a graph that already has roots) - compared per import with the function-level reference applied in visit order. Trusted: deno_semver's VersionReq::matches and Version ordering (used by both sides).",
   "DESIGN.md §4 C06", TECH + "; Full enumeration of the bounded selection domain against a reference model"),
  "C20": (True,
-  "Every byte string over a 19-atom alphabet up to the tier's length is loaded as a root module under every charset header x scheme x media type through the real builder, and (second part) served as registry files whose content load is deferred (embedded module graph); stored text, try_get_original_bytes and the serialised size are compared with an independent reference decoder (WHATWG UTF-16 state machine, from_utf8_lossy, cp1252 table). Complete enumeration.",
+  "Every byte string over a 19-atom alphabet up to the tier's length is loaded as a root module under every charset header x scheme x media type through the real builder, and (second part) served as registry files whose content load is deferred (embedded module graph); in both parts further modules in other encodings are loaded by the same build (before and after) and checked too; stored text, try_get_original_bytes and the serialised size are compared with an independent reference decoder (WHATWG UTF-16 state machine, from_utf8_lossy, cp1252 table). Complete enumeration.",
   "Trusted: the reference decoder, std's from_utf8_lossy. TS modules whose decoded text does not parse are unobservable (JSON modules cover every string).",
   "DESIGN.md §4 C20", TECH + "; Full enumeration of byte strings x charset x scheme x media type against an independent decoder"),
 
  "C17": (True,
-  "Every world inside the deviation bound (entry kinds x attributes x import forms x targets x local/remote, 3 option sets), every core-alphabet world, and every generated package graph carrying fast-check data is built twice with the real builder (All [+ fast check] then prune_types(), and CodeOnly) and the code-level views are compared; residues of type information and fast-check data in the pruned graph are checked; worlds with generated WebAssembly modules are included. All worlds within the completed deviation bound are enumerated (the evidence states the bound).",
+  "Every world inside the deviation bound (entry kinds x attributes x import forms x targets x local/remote, 3 option sets), every core-alphabet world, and every generated package graph carrying fast-check data is built twice with the real builder (All [+ fast check] then prune_types(), and CodeOnly) and the code-level views are compared; residues of type information and fast-check data in the pruned graph are checked; worlds with generated WebAssembly modules and all redirect-chain worlds (1-3 hops) are included. All worlds within the completed deviation bound are enumerated (the evidence states the bound).",
   "Differential oracle, no reference model. Errors compared by kind and specifier, not by referrer. Worlds violating the same-attribute proviso (also through redirects, roots, types header, pragma) are not generated; source-phase imports of otherwise-loaded specifiers are excluded here and reported under C01.",
   "DESIGN.md §4 C17", TECH + "; deviation-bounded enumeration of module worlds, differential oracle"),
  "C18": (True,
-  "For every world inside the deviation bound, every graph kind and every set of <= 2 module-holding specifiers as segment roots: each dependency of each module in the segment resolves and looks up as in the original, validation verdicts agree, for non-original roots the listing equals a direct build of those roots, and a segment of the segment equals the segment of the original (where the statement promises it); graphs with fast-check modules and with generated WebAssembly modules are segmented too.",
+  "For every world inside the deviation bound, every graph kind and every set of <= 2 module-holding specifiers as segment roots: each dependency of each module in the segment resolves and looks up as in the original, validation verdicts agree, for non-original roots the listing equals a direct build of those roots, and a segment of the segment equals the segment of the original (where the statement promises it); graphs with fast-check modules, with generated WebAssembly modules and all redirect-chain worlds (1-3 hops) are segmented too.",
   "Differential oracle. Segment roots are specifiers that no import loads as an asset (same-attribute proviso; a root is an attribute-less import).",
   "DESIGN.md §4 C18", TECH + "; deviation-bounded enumeration of module worlds x graph kinds x segment roots, differential oracle"),
  "C02": (True,
-  "Structured placements (9 failure kinds x 6 edge kinds x 0..3 redirect hops x sibling x local/remote) are built with the real builder and validated under all 36 walk option sets and valid(); the verdict is compared both with the verdict known by construction and with an independent reachability computation over the graph's recorded dependencies (complete enumeration). Generic worlds inside the deviation bound are compared with the reachability reference; graphs that carry fast-check modules and graphs with generated WebAssembly modules (verdict known by construction) are validated under all 36 option sets.",
+  "Structured placements (9 failure kinds x 6 edge kinds x 0..3 redirect hops x sibling x local/remote) are built with the real builder and validated under all 36 walk option sets and valid(); the verdict is compared both with the verdict known by construction and with an independent reachability computation over the graph's recorded dependencies (complete enumeration). Generic worlds inside the deviation bound and all redirect-chain worlds (1-3 hops) are compared with the reachability reference; graphs that carry fast-check modules and graphs with generated WebAssembly modules (verdict known by construction) are validated under all 36 option sets.",
   "The reachability reference reads Module::dependencies / redirects / imports through the public API. A root of unknown media type is (leniently) JavaScript and not counted as a failure; the resolution of a configured import itself is outside the statement.",
   "DESIGN.md §4 C02", TECH + "; Full enumeration of failure placements + deviation-bounded worlds, oracle = construction ground truth and reachability reference"),
  "C15": (True,
-  "Every graph built from a world inside the deviation bound is walked from every root set of <= 2 world specifiers under all 36 option sets, plain and with skip_previous_dependencies() after each single entry / every entry; yielded sets (no duplicates) and keyed error listings are compared with a set-based reference fixpoint. A further part walks graphs that carry fast-check modules (generated packages after build_fast_check_type_graph, with failing imports that only function bodies use) under all 36 option sets incl. prefer_fast_check_graph, and graphs with generated WebAssembly modules likewise.",
+  "Every graph built from a world inside the deviation bound is walked from every root set of <= 2 world specifiers under all 36 option sets, plain and with skip_previous_dependencies() after each single entry / every entry; yielded sets (no duplicates) and keyed error listings are compared with a set-based reference fixpoint. A complete part walks all redirect-chain worlds (1-3 hops, middle hops imported by nothing) from every root set; a further part walks graphs that carry fast-check modules (generated packages after build_fast_check_type_graph, with failing imports that only function bodies use) under all 36 option sets incl. prefer_fast_check_graph, and graphs with generated WebAssembly modules likewise.",
   "Reference fixpoint written over the public data (serialised slot table, redirects, imports, Module::dependencies(), the fast_check field of JS modules - not through dependencies_prefer_fast_check()). Generic worlds have no fast-check modules; the fast-check part supplies them.",
   "DESIGN.md §4 C15", TECH + "; deviation-bounded worlds x all walk options x root sets x skip sets against a reference fixpoint"),
  "C19": (True,
@@ -47,15 +47,15 @@ P = {
   "Faults beyond the completed deviation bound and worlds beyond the four fixtures are not covered. Registry files ignore response headers by design; files with embedded module information are not parsed.",
   "DESIGN.md §4 C03", TECH + "; deviation-bounded fault assignment over every loader call (fault enumeration), differential non-interference oracle"),
  "C04": (True,
-  "For 16 collision worlds (two with prefer_cached_jsr_versions and partly cached manifests, one with a cache-busting restart, one with pre-release and build-metadata versions of one release) and for every core-alphabet world x graph kind, every completion order of the gated Loader futures (and, with the queued executor, every order of polling spawned metadata tasks) and every permutation of the builder's hash-map drains, of the issue order of the cache-only probes and of the iteration order of the registry's version map is enumerated (Full; deviation-bounded for the largest), plus 0-2 extra suspensions of released futures (deviation-bounded); each run's graph observation incl. error referrers, final lockfile content and multiset of lockfile writes must equal the all-ready run.",
+  "For 17 collision worlds (two with prefer_cached_jsr_versions and partly cached manifests, one with a cache-busting restart, one with pre-release and build-metadata versions of one release, one where a deferred registry content load meets an entry that a second import has turned into an error) and for every core-alphabet world x graph kind, every completion order of the gated Loader futures (and, with the queued executor, every order of polling spawned metadata tasks) and every permutation of the builder's hash-map drains, of the issue order of the cache-only probes and of the iteration order of the registry's version map is enumerated (Full; deviation-bounded for the largest), plus 0-2 extra suspensions of released futures (deviation-bounded); each run's graph observation incl. error referrers, final lockfile content and multiset of lockfile writes must equal the all-ready run.",
   "Owns: loader completion order, executor task order, hash-map drain / issue / iteration order (4 hook sites), extra suspensions. Scenario worlds are hand-built to collide, the generated ones are complete over the core alphabet; more than ~8 simultaneously outstanding operations are not explored.",
   "DESIGN.md §4 C04", TECH + "; exhaustive enumeration of completion orders and drain permutations under a controlled scheduler"),
  "C05": (True,
-  "One composite world reaches a remote module statically / dynamically / as text asset / behind a redirect / as declaration / with BOM / with invalid UTF-8, a jsr: package with a sub-path (a pre-release version), and an https URL into the registry as module and as asset. Every assignment of lockfile state x served bytes to the 12 resources (+ manifests, redirecting URL, a redirect seeded from the lockfile, embedded module graph, cache probe, stale registry metadata that forces the cache-busting restart, an optional reload of one resource afterwards) inside the deviation bound is built with the real builder under a checksum-verifying loader; a monitor over the Loader and Locker call logs decides presentation, admission, retries, redirect rejection and recording.",
+  "One composite world reaches a remote module statically / dynamically / as text asset / behind a redirect / as declaration / with BOM / with invalid UTF-8, a jsr: package with a sub-path (a pre-release version), and an https URL into the registry as module and as asset. Every assignment of lockfile state x served bytes to the 12 resources (+ manifests, redirecting URL, a redirect seeded from the lockfile, embedded module graph, cache probe, stale registry metadata that forces the cache-busting restart, two versions of one package, an optional reload of one resource afterwards) inside the deviation bound is built with the real builder under a checksum-verifying loader; a monitor over the Loader and Locker call logs decides presentation, admission, retries, redirect rejection and recording.",
   "The scripted loader verifies presented checksums like a real cache. prefer_cached_jsr_versions is off. One world; assignments bounded by deviations from all-honest/empty-lockfile.",
   "DESIGN.md §4 C05", TECH + "; deviation-bounded enumeration of lockfile x tamper assignments with a call-log monitor"),
  "C01": (True,
-  "Every world inside the bound (deviation-bounded generic worlds over all entry kinds, 22 import forms, special targets, attributes, redirects, local/remote, types header; plus the complete enumeration of core-alphabet worlds with <= 3 edges) is built under 3 graph kinds x 10 option sets (all combinations of skip_dynamic_deps x is_dynamic x unstable text/bytes; custom resolver with resolve_types and default JSX import source + npm resolver + jsr passthrough + configured import; redirects seeded from the lockfile) and compared with (1) reference rules deriving each module's recorded dependencies from the renderer's record of what it wrote, (2) the least closure of the roots under the follow rules, computed over the reference dependencies, (3) the loader call log (single content load per specifier, redirects recorded), (4) entry kinds fixed by the world. Two further complete parts: template-literal dynamic imports expanded against an in-memory directory tree (18 templates x 2 importing modules x 3 graph kinds) and generated WebAssembly binaries with <= 3 imports of every import kind.",
+  "Every world inside the bound (deviation-bounded generic worlds over all entry kinds, 22 import forms, special targets, attributes, redirects, local/remote, types header; plus the complete enumeration of core-alphabet worlds with <= 3 edges) is built under 3 graph kinds x 10 option sets (all combinations of skip_dynamic_deps x is_dynamic x unstable text/bytes; custom resolver with resolve_types and default JSX import source + npm resolver + jsr passthrough + configured import; redirects seeded from the lockfile) and compared with (1) reference rules deriving each module's recorded dependencies from the renderer's record of what it wrote, (2) the least closure of the roots under the follow rules, computed over the reference dependencies, (3) the loader call log (single content load per specifier, redirects recorded), (4) entry kinds fixed by the world. Four further complete parts: worlds around redirect chains of 1-3 hops whose middle hops nothing imports; two import statements (evaluating / source-phase, static / dynamic) for one WebAssembly module against the join of the single-statement builds; template-literal dynamic imports expanded against an in-memory directory tree (18 templates x 2 importing modules x 3 graph kinds) and generated WebAssembly binaries with <= 3 imports of every import kind.",
   "The reference rules (about 25, each mirroring a sentence of the statement and anchored in graph.rs) are part of the trusted base. Worlds outside the same-attribute proviso are not generated; redirect cycles are C14's.",
   "DESIGN.md §4 C01", TECH + "; deviation-bounded + complete core enumeration of module worlds against a reference model of declared dependencies and closure"),
  "C08": (True,
@@ -87,8 +87,8 @@ P = {
   "One hand-built world (7 modules, 20 variants); fast_check_dts is outside it. Each operation rebuilds the graph from the current sources.",
   "DESIGN.md §4 C12", TECH + "; exhaustive operation histories over source variants with a shared cache, differential oracle against cache-less runs"),
  "C16": (True,
-  "ALL star re-export graphs over 3 (quick) / 4 (thorough) modules x own-export assignments are built and the resolved export set of every module is compared with the least fixpoint the ES rules define (own names first, default never re-exported by star, cycles terminate under the watchdog); the symbol tables of the generated C09 packages (incl. dotted namespaces, merged declarations, overloads, expando, class members) and of the symbol spec corpus are checked to be trees consistent with their parent pointers, with sound declaration names / ranges / ids, and go-to-definition is run from every symbol.",
-  "Tree conditions are the repository's own spec-helper conditions plus parent-pointer agreement. Termination is decided by the per-run watchdog (non-termination would be reported as a violation).",
+  "ALL star re-export graphs over 3 (quick) / 4 (thorough) modules x own-export assignments are built and the resolved export set of every module is compared with the least fixpoint the ES rules define (own names first, default never re-exported by star, cycles terminate under the watchdog); the symbol tables of the generated C09 packages (incl. dotted namespaces, merged declarations, overloads, expando, class members) and of the symbol spec corpus are checked to be trees consistent with their parent pointers, with sound declaration names / ranges / ids, and go-to-definition is run from every symbol. A complete, process-isolated part enumerates all 1 000 re-export graphs over 3 modules that mix named re-exports (direct and through an import) with export-star, cycles included: exported names against the ES rules, go-to-definition from every symbol and every export must return (a stack overflow of the child process is a violation).",
+  "Tree conditions are the repository's own spec-helper conditions plus parent-pointer agreement. Termination is decided by the per-run watchdog (non-termination would be reported as a violation) and, for unbounded recursion, by the exit status of the child process the world runs in.",
   "DESIGN.md §4 C16", TECH + "; complete enumeration of star re-export graphs + deviation-bounded generated packages + corpus"),
 }
 
